@@ -31,6 +31,7 @@ MIN_REACH = {
     "contract_evals_rs_update": {"quick": 100000, "thorough": 3000000},
     "contract_evals_rc_update": {"quick": 30000, "thorough": 500000},
     "estimate_runs": {"quick": 300, "thorough": 10000},
+    "estimate_runs_beyond_1024_samples": {"quick": 3, "thorough": 30},
     "matrix_readouts_judged": {"quick": 200, "thorough": 3000},
     "ill_conditioned_samples": {"quick": 100, "thorough": 2000},
 }
@@ -59,6 +60,12 @@ def cases(ctx):
                "min_samples": rng.choice([0, 1, 2, 5, 17]), "max_samples": rng.choice([1, 2, 3, 7, 50, 400]),
                "get": rng.choice(["stats", "samples", "samples", "mean"]), "verbosity": rng.choice([0, 0, 0, 2]),
                "sseed": rng.randint(0, 10 ** 9), "sigma": 10 ** rng.uniform(-4, 1)}
+    # long runs: limits beyond a thousand samples that are no round numbers, reached (tight tolerance) or nearly reached
+    # (a tolerance met only after more than a thousand samples)
+    for i in range(ctx.pick(8, 80)):
+        yield {"type": "est", "gen": "noisy", "rtol": rng.choice([1e-6, 0.0, 0.0085, 0.007]), "tol_scale": rng.choice([0.0, 1e-3]),
+               "min_samples": rng.choice([0, 5]), "max_samples": rng.choice([1025, 1100, 1500, 2049, 3001, 1031 + i]),
+               "get": rng.choice(["stats", "samples", "mean"]), "verbosity": 0, "sseed": rng.randint(0, 10 ** 9), "sigma": 1.0, "long": True}
 
 
 def _sample(rng, n, offset, spread, dist):
@@ -155,6 +162,7 @@ def run_case(ctx, case):
             for x in seq:
                 sh.add(x)
             if sh.mean != mu or sh.var != var:
+                _drain(ctx, case, sig)
                 raise AssertionError("shadow accumulator disagrees with the two-pass rational reference")
             for msg in contracts.judge_running_statistics(rs, sh):
                 ctx.violation(case, "final state: " + msg, dict(sig, oracle="final", quantity=msg.split(" ")[0]))
@@ -289,9 +297,11 @@ def run_case(ctx, case):
         except Exception as e:
             err = e
         ctx.count("estimate_runs")
+        if case.get("long"):
+            ctx.count("estimate_runs_beyond_1024_samples", 1 if len(calls) > 1024 else 0)
         if err is not None:
             ctx.violation(case, "estimate_from_repeats raised %r" % (err,), dict(sig, **exc_sig(err)))
-            contracts.drain()
+            _drain(ctx, case, sig)
             ctx.observe(case, nontrivial=False)
             return
         bad = []
